@@ -4,6 +4,8 @@ use crate::report::{Outcome, Violation};
 use crate::Cfg;
 use serde_json::Value;
 
+pub mod c01;
+pub mod c05;
 pub mod c10;
 pub mod c14;
 pub mod c15;
@@ -12,6 +14,8 @@ pub mod c20;
 
 pub fn run(prop: &str, cfg: &Cfg) -> Outcome {
     match prop {
+        "C01" => c01::run(cfg),
+        "C05" => c05::run(cfg),
         "C10" => c10::run(cfg),
         "C14" => c14::run(cfg),
         "C15" => c15::run(cfg),
@@ -26,6 +30,8 @@ pub fn run(prop: &str, cfg: &Cfg) -> Outcome {
 
 pub fn replay(prop: &str, cfg: &Cfg, case: &Value) -> Vec<Violation> {
     match prop {
+        "C01" => c01::replay(cfg, case),
+        "C05" => c05::replay(cfg, case),
         "C10" => c10::replay(cfg, case),
         "C14" => c14::replay(cfg, case),
         "C15" => c15::replay(cfg, case),
